@@ -268,7 +268,22 @@ class Instrumenter(object):
       inner.args = a
       return [I.P(s), inner, I.W(s, [s.name])]
     if isinstance(s, ast.ClassDef):
-      return [I.P(s), s, I.W(s, [s.name])]
+      # The class body runs as part of the statement: loads of the enclosing function's
+      # variables at class-body level (not inside methods) are reads of this statement.
+      # Names the class body binds itself are left alone (class-level lookup differs).
+      own = set(_store_names(ast.Module(body=s.body, type_ignores=[])))
+      own |= set(n.name for n in s.body if isinstance(n, (ast.FunctionDef, ast.ClassDef)))
+      tracked = (fi.locals | fi.params | fi.free | fi.nonlocals) - own
+      rd = _Reads(self.ids, tracked)
+      new = copy.copy(s)
+      new.body = []
+      for st in s.body:
+        if isinstance(st, (ast.Assign, ast.AugAssign, ast.AnnAssign, ast.Expr)) and getattr(st, 'value', None) is not None:
+          st = copy.copy(st)
+          st.value = rd.visit(st.value)
+        new.body.append(st)
+      new.bases = [rd.visit(b_) for b_ in s.bases]
+      return [I.P(s), new, I.W(s, [s.name])]
     if isinstance(s, (ast.Assign, ast.AnnAssign)):
       names = _store_names(s)
       return [I.P(s), I.stmt_exprs(s, fi), I.W(s, names)]
